@@ -114,7 +114,28 @@ func (x *Exec) implUF(it types.Type) string {
 }
 
 // fnKey is the canonical key of a function: RelString(nil) of its origin.
+// renamedFns: real key of an unexported function that was renamed -> the key its contract uses (see
+// loadRepo): everything downstream (contract lookup, event names, the function lists of static
+// clauses) sees the function under the name the contracts know.
+var renamedFns = map[string]string{}
+
 func fnKey(fn *ssa.Function) string {
+	k := realFnKey(fn)
+	if len(renamedFns) == 0 {
+		return k
+	}
+	if o, ok := renamedFns[k]; ok {
+		return o
+	}
+	if i := strings.Index(k, "$"); i > 0 {
+		if o, ok := renamedFns[k[:i]]; ok {
+			return o + k[i:]
+		}
+	}
+	return k
+}
+
+func realFnKey(fn *ssa.Function) string {
 	if o := fn.Origin(); o != nil {
 		// anonymous functions inside instantiated generics: parent origin + suffix
 		return o.RelString(nil)
